@@ -34,7 +34,7 @@ func (s *stubCtx) GetCurrentScriptHash() util.Uint160 { return s.cur }
 func (s *stubCtx) IsCalledByEntry() bool              { return s.entry }
 func (s *stubCtx) CallingScriptHasGroup(k *keys.PublicKey) (bool, error) {
 	for i := range s.k {
-		if s.k[i].Equal(k) {
+		if sameKey(s.k[i], k) {
 			if s.callE[i] {
 				return false, errStubGroups
 			}
@@ -45,7 +45,7 @@ func (s *stubCtx) CallingScriptHasGroup(k *keys.PublicKey) (bool, error) {
 }
 func (s *stubCtx) CurrentScriptHasGroup(k *keys.PublicKey) (bool, error) {
 	for i := range s.k {
-		if s.k[i].Equal(k) {
+		if sameKey(s.k[i], k) {
 			if s.curE[i] {
 				return false, errStubGroups
 			}
@@ -82,7 +82,15 @@ type matchWorld struct {
 	nE    int // how many of them this tier uses (the quick ones come first)
 }
 
-func newMatchWorld() *matchWorld {
+// sameKey: two keys are the same key iff they are the same point, both coordinates
+// (the harness's own comparison: the stub never uses the subject's Equal/Cmp).
+func sameKey(a, b *keys.PublicKey) bool { return a.X.Cmp(b.X) == 0 && a.Y.Cmp(b.Y) == 0 }
+
+func newMatchWorld() *matchWorld { return newMatchWorldKeys(false) }
+
+// newMatchWorldKeys: with mirror, the second key of the world is the MIRROR key of
+// the first one (round 6) instead of an unrelated key.
+func newMatchWorldKeys(mirror bool) *matchWorld {
 	m := &matchWorld{n: names{H: map[string]util.Uint160{}, K: map[string]*keys.PublicKey{}}}
 	hs := []util.Uint160{}
 	for i := 1; i <= 3; i++ {
@@ -91,6 +99,9 @@ func newMatchWorld() *matchWorld {
 		m.n.H[fmt.Sprintf("H%d", i)] = h
 	}
 	k := [2]*keys.PublicKey{chainx.Acc(groupBase).PublicKey(), chainx.Acc(groupBase + 1).PublicKey()}
+	if mirror {
+		k[1] = mirrorPub(k[0])
+	}
 	m.n.K["K1"], m.n.K["K2"] = k[0], k[1]
 	ks := [2]string{k[0].StringCompressed(), k[1].StringCompressed()}
 	for _, cur := range hs {
@@ -172,6 +183,7 @@ type matchFail struct {
 	Form  string `json:"form"` // orig | binary | json
 	Got   string `json:"got"`
 	Want  string `json:"want"`
+	World string `json:"world,omitempty"` // "mirror-keys": K2 is the mirror key of K1
 }
 
 // checkTree evaluates one tree (orig, and if rt its binary and JSON round
@@ -279,7 +291,11 @@ func runMatch(r *vk.Run, w1 int, cov map[string]any) {
 			return
 		}
 		r.Outcome("match:MISMATCH:" + class)
-		r.Violation(fmt.Sprintf("match:%s:%s:%s", f.Tree.String(), f.CtxS, f.Form), f)
+		layer := "match"
+		if f.World != "" {
+			layer += "-" + f.World
+		}
+		r.Violation(fmt.Sprintf("%s:%s:%s:%s", layer, f.Tree.String(), f.CtxS, f.Form), f)
 	}
 	// depth <= 1
 	for _, t := range t1 {
@@ -298,6 +314,25 @@ func runMatch(r *vk.Run, w1 int, cov map[string]any) {
 		}
 	}
 	cov["match_zero_caller_trees"] = zTrees
+	// round 6: the same trees of depth <= 1 (all forms: as built, binary and JSON round trips) in a world
+	// whose two keys are a key and its mirror key: a condition hands the context the very key it was built
+	// with / decoded from (the contexts compare encodings)
+	mm := newMatchWorldKeys(true)
+	mTrees := 0
+	mreport := func(f matchFail) {
+		f.World = "mirror-keys"
+		report(f)
+	}
+	for _, l := range leaves {
+		evals.Add(mm.checkTree(mm.mk(l), true, mreport))
+		mTrees++
+	}
+	for _, s := range depth1(leaves, 2) {
+		evals.Add(mm.checkTree(mm.mk(s), true, mreport))
+		mTrees++
+	}
+	trees.Add(mTrees)
+	cov["match_mirror_key_world_trees"] = mTrees
 	// depth 2: root over children from t1, at least one child of depth 1.
 	// job i: first child t1[i].
 	r.Parallel(len(t1), func(i int) {
